@@ -1,6 +1,6 @@
 (* C16 — HTTP 304 only when the client already has the served version. *)
 From Coq Require Import List NArith ZArith Bool.
-From RV Require Import Base.KMap Base.Serial32 C11.Model C11.Proofs C13.Model C13.Proofs C15.Model C15.Proofs.
+From RV Require Import Base.KMap Base.Serial32 C11.Model C11.Proofs C13.Model C13.Proofs C15.Model C15.Proofs C15.Spec C15.SpecProofs.
 Import ListNotations.
 Local Open Scope N_scope.
 
@@ -23,6 +23,12 @@ Proof. exact created_run. Qed.
 
 (* non-vacuity: a 304 does happen for current validators, and the old validators fail in the gap
    between install and mark_update_done even when the old creation time is a whole second *)
+(* the executable oracle of the shared server stream (C15/Spec.v) accepts what the model answers at
+   every gap of every cycle of every schedule (see C15/SpecProofs.v for the hypothesis on probes) *)
+Theorem C16_model_satisfies_spec : forall c, c_keep c < H31 -> N.of_nat (length (c_cycles c)) <= M32 ->
+  inputs_ok c = true -> probes_ok (srv_init (c_keep c)) (c_cycles c) -> spec_okb (model_case c) = true.
+Proof. exact model_satisfies_spec. Qed.
+
 Example C16_nonvacuous :
   let a := {| origins := [(1, tt)]; rkeys := []; aspas := [] |} in
   let b := {| origins := [(2, tt)]; rkeys := []; aspas := [] |} in
